@@ -5,7 +5,9 @@
    JSON-patch engine used by [check_ccase]: [jp_stub], a minimal stand-in for github.com/evanphx/json-patch that
    handles exactly what the generator emits for the ietf-json-patch action: a list (possibly empty) of
    {"op":"add","path":"/<name>","value":v} with <name> free of '/' and '~', applied to an object document:
-   each sets the top-level member <name>.  Everything else makes the stub fail; the generator never emits it. *)
+   each sets the top-level member <name>.  On the nil document the empty list gives the nil document back and a
+   non-empty list fails (the library panics there; since commit 9f6d729 applyJSON turns that into an error).
+   Everything else makes the stub fail; the generator never emits it. *)
 From Coq Require Import List NArith Bool String.
 From Coq.Strings Require Import Byte.
 From Coq Require Import Permutation.
@@ -39,9 +41,18 @@ Fixpoint jp_stub_go (ops : list json) (m : list (bytes * json)) : option (list (
   end.
 
 Definition jp_stub (p d : json) : option json :=
-  match p, d with
-  | JArr ops, JObj m => match jp_stub_go ops m with Some m' => Some (JObj m') | None => None end
-  | _, _ => None
+  match d with
+  | JObj m =>
+    match p with
+    | JArr ops => match jp_stub_go ops m with Some m' => Some (JObj m') | None => None end
+    | _ => None
+    end
+  | JNull =>
+    match p with
+    | JArr [] => Some JNull   (* nil document, no operation: the text "null" comes back *)
+    | _ => None               (* nil document + add: the library panics, applyJSON recovers -> error *)
+    end
+  | _ => None
   end.
 
 Definition ojson_equiv (a b : option json) : bool :=
@@ -147,6 +158,12 @@ Theorem from_document_roundtrip_stub : forall m,
                 /\ apply_patches jp_stub (JObj []) ps = Some (JObj m') /\ Permutation m' m.
 Proof. exact (from_document_roundtrip jp_stub jp_stub_add_fresh_members). Qed.
 
+Theorem from_document_roundtrip_equiv_stub : forall m,
+  wf_document m ->
+  exists ps d', patches_from_document (JObj m) = Some ps
+                /\ apply_patches jp_stub (JObj []) ps = Some d' /\ json_equiv d' (JObj m) = true.
+Proof. exact (from_document_roundtrip_equiv jp_stub jp_stub_add_fresh_members). Qed.
+
 (* [wf_document] is inhabited by a non-trivial document *)
 Definition wf_example : list (bytes * json) :=
   [(bs "x", JObj [(bs "a", JNum 0%N)]);
@@ -162,10 +179,13 @@ Proof.
   - reflexivity.
   - unfold wf_example. repeat apply Forall_cons; try apply Forall_nil.
     + lazy. split; reflexivity.
-    + lazy. eexists. split; [reflexivity|]. split; [discriminate|]. repeat constructor.
-    + lazy. eexists. split; [reflexivity|]. split; [discriminate|]. repeat constructor.
+    + exists [ex_key "s1" "t"]. split; [reflexivity|]. split; [discriminate|]. split; [repeat constructor|].
+      vm_compute. repeat constructor; cbn [In]; intuition discriminate.
+    + exists [ex_key "k1" "a"; ex_key "k2" "b"]. split; [reflexivity|]. split; [discriminate|].
+      split; [repeat constructor|]. vm_compute. repeat constructor; cbn [In]; intuition discriminate.
     + lazy. split; reflexivity.
-    + exists [bs "did:a:1"; bs "did:a:2"]. split; [reflexivity|]. discriminate.
+    + exists [bs "did:a:1"; bs "did:a:2"]. split; [reflexivity|]. split; [discriminate|].
+      vm_compute. repeat constructor; cbn [In]; intuition discriminate.
 Qed.
 
 Example wf_example_roundtrip :
